@@ -14,4 +14,4 @@ json.dump({"property":p,"origin":"sub-agent (round 2)","what":w,"needs":n,"ran":
 PY
 git -C /repo worktree remove --force /tmp/wt-$P
 rm -f /tmp/confirm-$ID.txt
-python3 tools_seeded.py $ID 2>&1 | tail -2
+if [ -z "${NO_RUN:-}" ]; then python3 tools_seeded.py $ID 2>&1 | tail -2; else echo "stored $ID (check not run: NO_RUN set)"; fi
